@@ -49,16 +49,17 @@ def run(ctx):
         site = ctx.site(CSL + 'insert')
         r.check('zero-guard', g['zero'], site, built=g['guards'], expected='id == 0 rejected before make_entry', why='id 0 is the connection channel; accepting it hangs the call')
         r.check('max-guard', g['max'], site, built=g['guards'], expected='id > channel_max rejected before make_entry')
-        r.check('vacant-only', any('Entry::Vacant(_)' in x for x in g['guards']), site, built=g['guards'], expected='make_entry only in the Vacant arm of slots.entry(id)')
+        HAS = 'std::collections::HashMap::contains_key(self.slots, channel_id.Some.0)'
+        r.check('vacant-only', 'unless(%s)' % HAS in g['guards'], site, built=g['guards'], expected='make_entry only where the id is not in the table (Vacant arm of slots.entry(id) / !contains_key(id))')
         r.eq('guard-error', g['error_on_reject'], [UNAVAIL], site)
         rows = P.table(ctx, CSL + 'insert', ['self', 'channel_id', 'make_entry'])
-        occ = [x for x in rows if x.conds and x.conds[-1][1] == 'std::collections::hash_map::Entry::Occupied(_)']
+        occ = [x for x in rows if x.conds and x.conds[-1] == (HAS, True)]
         r.check('occupied-error', len(occ) == 1 and occ[0].value_str() == UNAVAIL, site, built=[x.row() for x in occ])
         none = [x for x in rows if x.conds and x.conds[0] == ('channel_id', 'None')]
         r.check('none-delegates', len(none) == 1 and none[0].value_str() == CSL + 'insert_unused_channel_id(self, make_entry)', site, built=[x.row() for x in none])
-        vac = [x for x in rows if x.conds and x.conds[-1][1] == 'std::collections::hash_map::Entry::Vacant(_)']
+        vac = [x for x in rows if x.conds and x.conds[-1] == (HAS, False)]
         r.check('vacant-inserts-that-id', len(vac) == 1 and 'value:make_entry(channel_id.Some.0)' in vac[0].effects and
-                any(e.startswith('std::collections::hash_map::VacantEntry::insert(std::collections::HashMap::entry(self.slots, channel_id.Some.0).Vacant.0') for e in vac[0].effects),
+                any(e.startswith('std::collections::HashMap::insert(self.slots, channel_id.Some.0, value:make_entry(channel_id.Some.0)') for e in vac[0].effects),
                 site, built=[x.row() for x in vac])
 
     with ctx.rule('R10.2', 'automatic allocation: counter taken before increment, bounded by channel_max, entry API; fallback tolerates stale freed ids', floor=8) as r:
@@ -66,7 +67,7 @@ def run(ctx):
         rows = P.table(ctx, fnp, ['self', 'make_entry'])
         site = ctx.site(fnp)
         G = '(self.channel_max < self.next_channel_id)'  # canonical: `next <= max` is (max < next) failing
-        ENT = 'std::collections::HashMap::entry(self.slots, $s0)'
+        ENT = 'std::collections::HashMap::contains_key(self.slots, $s0)'  # the entry API and contains_key + insert read alike
         SNAP = 'let $s0 = (self.next_channel_id as u16)'
         cnt = [x for x in rows if x.conds and x.conds[0] == (G, False)]
         fb = [x for x in rows if x.conds and x.conds[0] == (G, True)]
@@ -75,20 +76,20 @@ def run(ctx):
             i_snap = x.effects.index(SNAP) if SNAP in x.effects else -1
             i_inc = x.effects.index('self.next_channel_id += 1') if 'self.next_channel_id += 1' in x.effects else -1
             i_ent = x.effects.index(ENT) if ENT in x.effects else -1
-            kind = x.conds[-1][1].split('::')[-1]
+            kind = 'occupied' if x.conds[-1] == (ENT, True) else 'vacant'
             r.check('counter:%s:order' % kind, 0 <= i_snap < i_inc < i_ent, site, built=x.effects, expected=[SNAP, 'self.next_channel_id += 1', ENT],
                     why='the id probed is the counter value before the increment, and the counter always advances')
-        co = [x for x in cnt if x.conds[-1][1] == 'std::collections::hash_map::Entry::Occupied(_)']
-        cv = [x for x in cnt if x.conds[-1][1] == 'std::collections::hash_map::Entry::Vacant(_)']
+        co = [x for x in cnt if x.conds[-1] == (ENT, True)]
+        cv = [x for x in cnt if x.conds[-1] == (ENT, False)]
         r.check('counter:occupied-skips', len(co) == 1 and co[0].done == 'iterate' and not [e for e in co[0].effects if 'insert' in e or 'make_entry' in e], site, built=[x.row() for x in co],
                 expected='an occupied id is skipped (continue), never overwritten')
         r.check('counter:vacant-inserts', len(cv) == 1 and 'value:make_entry($s0)' in cv[0].effects and cv[0].done == 'return' and cv[0].value_str() == 'Ok(value:make_entry($s0)?.1)',
                 site, built=[x.row() for x in cv])
         POP = 'std::option::Option::ok_or(indexmap::IndexSet::pop(self.freed_channel_ids), errors::Error::ExhaustedChannelIds)?'
-        fo = [x for x in fb if x.conds[-1] == ('std::collections::HashMap::entry(self.slots, %s)' % POP, 'std::collections::hash_map::Entry::Occupied(_)')]
-        fv = [x for x in fb if x.conds[-1] == ('std::collections::HashMap::entry(self.slots, %s)' % POP, 'std::collections::hash_map::Entry::Vacant(_)')]
+        fo = [x for x in fb if x.conds[-1] == ('std::collections::HashMap::contains_key(self.slots, %s)' % POP, True)]
+        fv = [x for x in fb if x.conds[-1] == ('std::collections::HashMap::contains_key(self.slots, %s)' % POP, False)]
         r.check('fallback:pops-freed-or-exhausted', len(fo) == 1 and len(fv) == 1, site, built=[x.conds[-1] for x in fb],
-                expected='id = freed.pop().context(ExhaustedChannelIds)? ; slots.entry(id)', why='ExhaustedChannelIds only when the freed set is empty')
+                expected='id = freed.pop().context(ExhaustedChannelIds)? ; is id in slots?', why='ExhaustedChannelIds only when the freed set is empty')
         if fo:
             r.check('fallback:stale-id-skipped', fo[0].done == 'iterate' and 'unreachable!()' not in fo[0].effects, site, built=fo[0].row(),
                     expected='an occupied (re-opened) freed id is skipped, not a panic', why='open(Some(1)), close, open(Some(1)) leaves 1 in the freed set')
